@@ -374,6 +374,35 @@ var scalingShapes = map[string]string{
 	"list lines":       "【1，2，\n    3】\n",
 }
 
+// shapes that are not one line repeated: one construct of n parts (followed by n further parts)
+var scalingBuilders = map[string]func(n int) string{
+	"statements after a long text, on its last line": func(n int) string {
+		return "令甲 = “" + strings.Repeat("行\n", n) + "”" + strings.Repeat("；（显示：1）", n) + "\n"
+	},
+	"statements after a long block comment, on its last line": func(n int) string {
+		return "/* " + strings.Repeat("行\n", n) + "*/ 令甲 = 1" + strings.Repeat("；（显示：1）", n) + "\n"
+	},
+	"statements on one line": func(n int) string { return "令甲 = 1" + strings.Repeat("；（显示：1）", n) + "\n" },
+	"one list over many lines": func(n int) string { return "令甲 = 【" + strings.Repeat("1，\n    ", n) + "2】\n" },
+	"one dictionary over many lines": func(n int) string {
+		var b strings.Builder
+		b.WriteString("令甲 = 【")
+		for i := 0; i < n; i++ {
+			fmt.Fprintf(&b, "“k%d” = 1，\n    ", i)
+		}
+		b.WriteString("“z” = 2】\n")
+		return b.String()
+	},
+	"one call with many arguments": func(n int) string { return "（显示：1" + strings.Repeat("、\n    2", n) + "）\n" },
+	"block of many statements inside a text-headed block": func(n int) string {
+		return "如果“a\nb” == “c”：\n" + strings.Repeat("    （显示：“x\ny”）\n", n)
+	},
+	"syntax error after many lines": func(n int) string { return strings.Repeat("令A = 1\n", n) + "令B = ~\n" },
+	"syntax error on a line after a long text": func(n int) string {
+		return "令甲 = “" + strings.Repeat("行\n", n) + "”；令B = ~\n"
+	},
+}
+
 func threadCPU() time.Duration {
 	var ru syscall.Rusage
 	syscall.Getrusage(1 /* RUSAGE_THREAD */, &ru)
@@ -386,7 +415,11 @@ func compileCPU(src string) (time.Duration, error) {
 	for i := 0; i < 3; i++ {
 		runes := []rune(src)
 		t0 := threadCPU()
-		_, err = syntax.NewParser(runes, zh.NewParserZH()).Compile()
+		pr := syntax.NewParser(runes, zh.NewParserZH())
+		_, err = pr.Compile()
+		if err != nil {
+			_ = exec.DisplayError(exec.WrapSyntaxError(pr, exec.MODULE_NAME_MAIN, err))
+		}
 		if d := threadCPU() - t0; d < best {
 			best = d
 		}
@@ -395,11 +428,23 @@ func compileCPU(src string) (time.Duration, error) {
 }
 
 func checkScaling(shape string) ([]h.Failure, float64) {
-	unit := scalingShapes[shape]
+	unit, repeated := scalingShapes[shape]
+	build := func(n int) string { return strings.Repeat(unit, n) }
+	if !repeated {
+		build = scalingBuilders[shape]
+		unit = build(2)
+	}
 	runtime.LockOSThread()
 	defer runtime.UnlockOSThread()
-	small, err1 := compileCPU(strings.Repeat(unit, 10000))
-	large, err2 := compileCPU(strings.Repeat(unit, 80000))
+	small, err1 := compileCPU(build(10000))
+	large, err2 := compileCPU(build(80000))
+	if strings.HasPrefix(shape, "syntax error") {
+		// the program is rejected: compiling it AND rendering the error is what is timed
+		if err1 == nil || err2 == nil {
+			return []h.Failure{{Sig: "scaling/invalid-program-accepted", Msg: shape}}, 0
+		}
+		err1, err2 = nil, nil
+	}
 	if err1 != nil || err2 != nil {
 		return []h.Failure{{Sig: "scaling/valid-program-rejected", Msg: fmt.Sprintf("%q repeated: %v / %v", unit, err1, err2)}}, 0
 	}
@@ -416,6 +461,9 @@ func checkScaling(shape string) ([]h.Failure, float64) {
 func TestCompileScaling(t *testing.T) {
 	names := make([]string, 0, len(scalingShapes))
 	for n := range scalingShapes {
+		names = append(names, n)
+	}
+	for n := range scalingBuilders {
 		names = append(names, n)
 	}
 	sort.Strings(names)
